@@ -181,8 +181,14 @@ def grid_size(g, l):
     return (max(-((-(w // r)) // g['tw']), 1), max(-((-(h // r)) // g['th']), 1))
 
 
-def run_strategy(grid, g, strategy, ms, buf, t, extra, meta_bbox=None, holes=None):
+def run_strategy(grid, g, strategy, ms, buf, t, extra, meta_bbox=None, holes=None, pre=()):
     m, cache, src = manager(grid, g, strategy, ms, buf, holes=holes)
+    if pre:
+        # some tiles of the meta tile are in the cache already (made one by one earlier): the cache is partially filled
+        m1, cache1, _src1 = manager(grid, g, 'single', ms, buf)
+        m1.load_tile_coords(list(pre))
+        for u in pre:
+            cache.d[u] = cache1.d[u]
     req = [t] + list(extra)
     try:
         m.load_tile_coords(req)
@@ -206,6 +212,8 @@ def run_strategy(grid, g, strategy, ms, buf, t, extra, meta_bbox=None, holes=Non
                 if ou['foreign'] or ou['ex'] or ou['ey'] or ou['bg_inside']:
                     o['foreign'] += 1
         o['foreign'] += len([u for u in holes if u in cache.d])
+    if pre:
+        o['pre'] = [list(u) for u in pre]
     if strategy == 'concurrent':
         # a second meta tile is created in the same call: count the requests for THIS meta tile (its bbox)
         o['nreq'] = len([q for q in src.log if all(abs(a - b) < 1e-6 for a, b in zip(q[0], meta_bbox))])
@@ -262,6 +270,14 @@ def observe(name, g, ctx, n_cases):
                 ctx.cov['bulk_with_blank_tiles'] = ctx.cov.get('bulk_with_blank_tiles', 0) + 1
             else:
                 obs.append(run_strategy(grid, g, 'bulk', ms, 0, t, []))
+        elif k < 0.9:
+            # the meta tile is partially cached (its main tile among the cached ones): the rest is still made by one request
+            others = [u for u in mt.tiles if u is not None and u != t]
+            main = tuple(mg.main_tile(t))
+            if others:
+                pre = [u for u in others if u == main or rng.random() < 0.4] or others[:1]
+                obs.append(run_strategy(grid, g, 'partial', ms, buf, t, [], pre=pre))
+                ctx.cov['partially_cached_meta_tiles'] = ctx.cov.get('partially_cached_meta_tiles', 0) + 1
         else:
             far = [(x, y, t[2]) for x in range(gx) for y in range(gy) if mg.main_tile((x, y, t[2])) != mg.main_tile(t)]
             obs.append(run_strategy(grid, g, 'concurrent', ms, buf, t, far[:1], meta_bbox=mt.bbox))
@@ -285,7 +301,7 @@ def validate(ctx, name, doc):
 def run(ctx):
     thorough = ctx.tier == 'thorough'
     tlc.sany(SPEC)
-    names = list(L.CATALOGUE) if thorough else ['G2', 'Gpart', 'Gpartul', 'Gneg', 'Grect', 'Grectul', 'G15', 'Gcust', 'Gunal', 'G1']
+    names = [n for n in L.CATALOGUE if n != 'Gsparse'] if thorough else ['G2', 'Gpart', 'Gpartul', 'Gneg', 'Grect', 'Grectul', 'G15', 'Gcust', 'Gunal', 'G1']
     n_cases = 900 if thorough else 300
     total = 0
     for name in names:
@@ -310,6 +326,8 @@ def run(ctx):
                               json.dumps([{k: o[k] for k in o if k != 'req'} for o in bad])[:500]),
                           {'grid': g, 'case': c})
         ctx.log('%s: %d cases, %d failing (%.1fs TLC)' % (name, n, v['count'], r.wall))
+    if not ctx.violations and not ctx.cov.get('partially_cached_meta_tiles'):
+        raise tlc.MachineryError('vacuity: no case with a partially cached meta tile')
     ctx.assumptions += [
         'lattice world, exact regime; whole-pixel buffers {0,1,2,5}; meta sizes (2,2),(3,2),(2,1),(1,3),(4,4)',
         'upstream picture depends on ground position only (position-encoding painter, nearest cell per pixel centre)',
